@@ -695,11 +695,18 @@ def run_index_classes(repo, task):
         'int': lambda k, n: sf.Index([100 * (k + 1), 100 * (k + 1) + 1], name=n),
     }
     combos = [c for r in (2, 3) for c in itertools.product(mk, repeat=r)]
+    only = task.get('only')
     for combo in rep.shard(combos):
+        if only and tuple(combo) != tuple(only['combo']):
+            continue
         for names in ('same', 'different', 'none'):
+            if only and names != only['names']:
+                continue
             idxs = [mk[c](k, {'same': 'nm', 'different': f'nm{k}', 'none': None}[names]) for k, c in enumerate(combo)]
             want = [l for ix in idxs for l in ix.values]
             for route in ('series', 'frame0', 'frame1'):
+                if only and route != only['route']:
+                    continue
                 rp = dict(combo=list(combo), names=names, route=route)
                 rep.count(distinct_key=(combo, names, route), sample=rp)
                 try:
@@ -720,7 +727,9 @@ def run_index_classes(repo, task):
 
 
 def replay_index_classes(repo, rp):
-    return dict(outcome='error', detail='re-run the task')
+    r = run_index_classes(repo, dict(tier='quick', shard=0, nshards=1, only=dict(combo=tuple(rp['combo']), names=rp['names'], route=rp['route'])))
+    fails = list(r['failures'].values()) if isinstance(r['failures'], dict) else list(r['failures'])
+    return dict(outcome='fail', key=fails[0]['key'], what=fails[0]['what']) if fails else dict(outcome='pass')
 
 
 def cases(tier):
@@ -751,6 +760,8 @@ def run(repo, task):
 
 
 def replay(repo, rp):
+    if 'combo' in rp:
+        return replay_index_classes(repo, rp)
     try:
         _, r = check_case(rp['specs'], tuple(rp['op']))
     except Exception as e:
